@@ -47,7 +47,9 @@ class Personality:
 
 PERSONALITIES = {
     "v17": Personality("v17", 17, 3, "1756-L61/B LOGIX5561"),
+    "v18": Personality("v18", 18, 2, "1756-L63/B LOGIX5563"),  # first firmware with the external-access attribute
     "v20": Personality("v20", 20, 19, "1769-L23E-QBFC1 LOGIX5323E-QBFC1"),
+    "v21": Personality("v21", 21, 3, "1756-L73/B LOGIX5573"),  # first firmware with symbol-instance addressing
     "v32": Personality("v32", 32, 11, "1756-L83E/B"),
     "m800": Personality("m800", 12, 11, "2080-LC50-48QWB", micro800=True),
 }
